@@ -15,12 +15,8 @@ def declare(spec):
                   ('fmt_fds', VAL), ('gsf_out', VAL)):
         spec.ghost(g, ty)
         spec.local_ghosts.add(g)
-    spec.add(Contract('circus.process:Process._get_sockets_fds', ret=VAL, trusted=True, modifies=['self._sockets', '$val'],
+    spec.add(Contract('circus.process:Process._get_sockets_fds', ret=VAL, trusted=True, modifies=['self._sockets'],
                       raises={'*': []}, note='not under contract: fd table of the watcher sockets (+ SO_REUSEPORT clones)'))
-    spec.add(Contract('circus.process:Process.format_args', params={'sockets_fds': VAL}, ret=List(STR), trusted=True,
-                      defaults={'sockets_fds': None}, modifies=['self.cmd'], raises={'*': []},
-                      note='not under contract: replace_gnu_args + shlex.split / quote (regex substitution and shell '
-                           'lexing are outside the string theories the solvers decide)'))
     spec.add(Contract('psutil:Popen', params={'args': List(STR), 'cwd': VAL, 'shell': VAL, 'preexec_fn': VAL, 'env': VAL,
                                               'close_fds': BOOL, 'executable': VAL, 'stdout': VAL, 'stderr': VAL},
                       defaults={'stdout': None, 'stderr': None}, ret=Ref('PsProc'), trusted=True, modifies=['new:PsProc'],
@@ -29,7 +25,7 @@ def declare(spec):
                       note='T-PSUTIL psutil.Popen = subprocess.Popen: fork/exec with exactly these arguments'))
     spec.add(Contract(
         'circus.process:Process.spawn',
-        requires=[],
+        requires=list(spec.consts['$FMT_REQ']),
         ensures=[
             ('one-exec', 'po_n == old(po_n) + 1'),
             ('argv-is-format-args', 'po_argv == fmt_out and fmt_fds == gsf_out'),
